@@ -39,6 +39,7 @@ type Link struct {
 type Fault struct {
 	At   int
 	Kind FaultKind
+	Mask byte // FaultFlip: the byte at offset At is XORed with Mask
 }
 
 type FaultKind int
@@ -47,9 +48,10 @@ const (
 	FaultEOF FaultKind = iota
 	FaultErr
 	FaultGarbage
+	FaultFlip
 )
 
-func (k FaultKind) String() string { return [...]string{"eof", "error", "garbage"}[k] }
+func (k FaultKind) String() string { return [...]string{"eof", "error", "garbage", "flip"}[k] }
 
 var ErrInjected = errors.New("injected I/O error")
 
@@ -68,7 +70,7 @@ func (l *Link) WriteBounds() []int { return l.bounds }
 // IntactMessages returns how many complete writes the reader received before any fault.
 func (l *Link) IntactMessages() int {
 	limit := l.consumed
-	if l.ReadFault != nil && l.ReadFault.At < limit {
+	if l.ReadFault != nil && l.ReadFault.Kind != FaultFlip && l.ReadFault.At < limit {
 		limit = l.ReadFault.At
 	}
 	n := 0
@@ -175,7 +177,7 @@ func (r linkReader) Read(p []byte) (int, error) {
 		return 0, nil
 	}
 	faultNow := func() bool {
-		return l.ReadFault != nil && l.ReadFault.Kind != FaultGarbage && l.consumed >= l.ReadFault.At
+		return l.ReadFault != nil && (l.ReadFault.Kind == FaultEOF || l.ReadFault.Kind == FaultErr) && l.consumed >= l.ReadFault.At
 	}
 	s.yield(&pendingOp{kind: opRead, obj: l, enabled: func() bool {
 		return len(l.buf) > 0 || l.wClosed || l.rClosed || faultNow()
@@ -198,7 +200,7 @@ func (r linkReader) Read(p []byte) (int, error) {
 	if n > len(p) {
 		n = len(p)
 	}
-	if l.ReadFault != nil && l.ReadFault.Kind != FaultGarbage && l.consumed+n > l.ReadFault.At {
+	if l.ReadFault != nil && (l.ReadFault.Kind == FaultEOF || l.ReadFault.Kind == FaultErr) && l.consumed+n > l.ReadFault.At {
 		n = l.ReadFault.At - l.consumed // deliver up to the fault point first
 	}
 	if l.stream && l.Fragment && n > 1 {
@@ -211,6 +213,12 @@ func (r linkReader) Read(p []byte) (int, error) {
 				p[i] = 0xFF
 				l.faultHit = true
 			}
+		}
+	}
+	if l.ReadFault != nil && l.ReadFault.Kind == FaultFlip {
+		if i := l.ReadFault.At - l.consumed; i >= 0 && i < n {
+			p[i] ^= l.ReadFault.Mask
+			l.faultHit = true
 		}
 	}
 	l.Delivered = append(l.Delivered, p[:n]...)
